@@ -140,6 +140,7 @@ impl CallingConvention {
                 preserved_registers.insert(il::scalar("x26", 64));
                 preserved_registers.insert(il::scalar("x27", 64));
                 preserved_registers.insert(il::scalar("x28", 64));
+                preserved_registers.insert(il::scalar("sp", 64));
 
                 preserved_registers.insert(il::scalar("v8", 128));
                 preserved_registers.insert(il::scalar("v9", 128));
